@@ -3,7 +3,7 @@
 # checks (quick tier, or $TIER), undo the change. Prints one line per check.
 set -u
 cd "$(dirname "$0")/.."
-PATCH=$1; shift
+PATCH=$(realpath "$1"); shift
 TIER=${TIER:-quick}
 if [ -n "$(git -C /repo status --porcelain --untracked-files=no)" ]; then echo "/repo is not clean" >&2; exit 2; fi
 git -C /repo apply "$PATCH" || { echo "patch does not apply" >&2; exit 2; }
